@@ -32,6 +32,7 @@ import (
 	tmclient "github.com/tendermint/tendermint/rpc/client"
 	ctypes "github.com/tendermint/tendermint/rpc/core/types"
 	tmStore "github.com/tendermint/tendermint/store"
+	"github.com/pokt-network/pocket-core/store/rootmulti"
 	tmtypes "github.com/tendermint/tendermint/types"
 	dbm "github.com/tendermint/tm-db"
 )
@@ -78,7 +79,8 @@ func roleOf(a sdk.Address) string {
 
 // EnvCfg: everything that parametrises a replica besides its blocks.
 type EnvCfg struct {
-	FeatureHeight    int64  `json:"feature_height"` // activation height of every named feature (>= 2)
+	BaseHeight       int64  `json:"base_height"`    // the chain starts right above this height (mainnet-era code paths); 0 = from height 1
+	FeatureHeight    int64  `json:"feature_height"` // activation height of every named feature
 	BlocksPerSession int64  `json:"blocks_per_session"`
 	ClaimWindow      int64  `json:"claim_window"`
 	ClaimExpiration  int64  `json:"claim_expiration"`
@@ -91,19 +93,18 @@ type EnvCfg struct {
 	Genesis          string `json:"genesis"` // named genesis variant
 	Warmup           int    `json:"warmup"`  // blocks executed before the explored history (the last one carries Setup)
 	Setup            []TxSpec `json:"setup,omitempty"` // transactions of the last warm-up block; all must succeed
+	Proposer         string   `json:"proposer,omitempty"` // default block proposer (N1)
 }
 
 func defaultEnv() EnvCfg {
-	return EnvCfg{FeatureHeight: 2, BlocksPerSession: 2, ClaimWindow: 2, ClaimExpiration: 3, SessionNodeCount: 1, MaxValidators: 2,
-		MaxApplications: 2, UnstakingBlocks: 1, MinProofs: 5, Genesis: "std", Warmup: 3,
+	return EnvCfg{BaseHeight: 80000, FeatureHeight: 70000, BlocksPerSession: 2, ClaimWindow: 2, ClaimExpiration: 3, SessionNodeCount: 1, MaxValidators: 2,
+		MaxApplications: 2, UnstakingBlocks: 1, MinProofs: 5, Genesis: "std", Warmup: 1,
 		// genesis is written with the legacy (pre non-custodial) encoding, which has no output address or reward
 		// delegators, and an edit-stake below height 30040 drops the signing info: the two nodes are therefore staked
 		// by ordinary transactions in the first block in which the current message formats are accepted
 		// (the stake-weight parameters are reset to their mainnet defaults at the RSCAL activation height; the DAO
 		// owner, who receives their ACL entries at that height, sets them back to small bins first)
 		Setup: []TxSpec{
-			{Kind: "gov_param", Signer: "D", Args: map[string]string{"key": "pos/ServicerStakeFloorMultiplier", "value": `"1000000"`}},
-			{Kind: "gov_param", Signer: "D", Args: map[string]string{"key": "pos/ServicerStakeWeightCeiling", "value": `"2000000"`}},
 			{Kind: "node_stake", Signer: "N1", Args: map[string]string{"node": "N1", "value": "3000000", "output": "O1", "chains": "0001"}},
 			{Kind: "node_stake", Signer: "N2", Args: map[string]string{"node": "N2", "value": "2000000", "output": "N2", "chains": "0001+0002", "delegators": "R1:10+R2:33"}},
 		}}
@@ -126,8 +127,7 @@ func featureList(h int64) []string {
 // that already knows the upgrade schedule (as a node restarted from its DB would).
 func resetGlobals(env EnvCfg) {
 	codec.TestMode = 0
-	codec.OldUpgradeHeight = 1
-	codec.UpgradeHeight = 2
+	codec.OldUpgradeHeight, codec.UpgradeHeight = envUpgradeHeights(env)
 	codec.UpgradeFeatureMap = codec.SliceToMap(featureList(env.FeatureHeight))
 	sdk.InitCtxCache(20)
 	sdk.VbCCache = sdk.NewCache(20)
@@ -138,6 +138,15 @@ func resetGlobals(env EnvCfg) {
 	pocketTypes.CleanPocketNodes()
 	app.VerifResetCodec()
 	app.GlobalConfig = cfg
+}
+
+// envUpgradeHeights: (codec upgrade height, latest gov upgrade height). High-altitude chains use the mainnet
+// constants (codec upgrade 30024, validator split 45353 implied by the height); low chains upgrade at 1 and 2.
+func envUpgradeHeights(env EnvCfg) (old, cur int64) {
+	if env.BaseHeight > 0 {
+		return codec.UpgradeCodecHeight, 60000
+	}
+	return 1, 2
 }
 
 func chainCodec() *codec.Codec { return app.Codec() }
@@ -229,7 +238,8 @@ func buildGenesis(env EnvCfg) app.GenesisState {
 	}
 	gv.Params.ACL = acl
 	gv.Params.DAOOwner = caddr("D")
-	gv.Params.Upgrade = govTypes.Upgrade{Height: 2, Version: "0.11.0", OldUpgradeHeight: 1, Features: featureList(env.FeatureHeight)}
+	oldH, curH := envUpgradeHeights(env)
+	gv.Params.Upgrade = govTypes.Upgrade{Height: curH, Version: "0.11.0", OldUpgradeHeight: oldH, Features: featureList(env.FeatureHeight)}
 	gv.DAOTokens = sdk.NewInt(daoFunds)
 	gen[govTypes.ModuleName] = cdc.MustMarshalJSON(gv)
 	return gen
@@ -428,6 +438,7 @@ type replica struct {
 	genesis app.GenesisState
 	// successful plain sends addressed to a module account (by module name): "donations" nobody staked
 	donated map[string]int64
+	mon     map[string]map[string]interface{}
 }
 
 func newReplica(env EnvCfg) *replica {
@@ -447,6 +458,15 @@ func (r *replica) open() {
 	r.txi = sdk.NewTransactionIndexer(r.txdb)
 	r.app.SetBlockstore(r.bs)
 	r.app.SetTxIndexer(r.txi)
+	if r.env.BaseHeight > 0 && r.app.LastBlockHeight() == 0 {
+		// fresh chain: continue from the base height without executing the blocks below it
+		r.app.Store().(*rootmulti.Store).VerifSetBaseVersion(r.env.BaseHeight)
+		r.height = r.env.BaseHeight
+		r.time = chainT0.Add(time.Duration(r.env.BaseHeight) * chainBlockInterval)
+		// a node that synced through the codec upgrade height keeps the proto override for the life of the
+		// process; genesis (context height 0) is therefore written in the current encoding
+		r.app.VerifCodec().SetUpgradeOverride(true)
+	}
 }
 
 // stubTM: the pocketcore EndBlock starts a goroutine that asks the Tendermint node whether it is still
@@ -528,6 +548,9 @@ func (r *replica) runBlock(b BlockSpec) BlockRes {
 		txs = append(txs, bz)
 	}
 	proposer := b.Proposer
+	if proposer == "" {
+		proposer = r.env.Proposer
+	}
 	if proposer == "" {
 		proposer = "N1"
 	}
@@ -697,12 +720,32 @@ func runJob(job Job) (res JobResult) {
 	}
 	r.results = nil
 	res.Obs = map[string]interface{}{}
-	for _, b := range job.Blocks {
-		r.runBlock(b)
+	var mons []string
+	for _, w := range job.Want {
+		if strings.HasPrefix(w, "mon:") {
+			mons = append(mons, w)
+		}
+	}
+	var prevSnap *chainSnap
+	if len(mons) > 0 {
+		prevSnap = r.snap()
+	}
+	for bi, b := range job.Blocks {
+		br := r.runBlock(b)
+		if len(mons) > 0 {
+			cur := r.snap()
+			for _, m := range mons {
+				chainMonitors[m](r, &res, bi, b, br, prevSnap, cur)
+			}
+			prevSnap = cur
+		}
 	}
 	res.Blocks = r.results
 	res.StateKey = r.stateKey()
 	for _, w := range job.Want {
+		if strings.HasPrefix(w, "mon:") {
+			continue
+		}
 		f, ok := chainInvariants[w]
 		if !ok {
 			res.Err = "unknown invariant " + w
@@ -715,6 +758,20 @@ func runJob(job Job) (res JobResult) {
 	}
 	res.Errlog = r.logbuf.String()
 	return
+}
+
+// chainMonitors: evaluated after every explored block with the snapshots before and after it.
+var chainMonitors = map[string]func(r *replica, res *JobResult, bi int, b BlockSpec, br BlockRes, prev, cur *chainSnap){}
+
+// chainSnap: decoded view of the consensus state used by monitors.
+type chainSnap struct {
+	Height int64
+	Time   int64
+	Bal    map[string]int64
+	Nodes  map[string]map[string]string
+	Apps   map[string]map[string]string
+	Supply int64
+	mon    map[string]interface{}
 }
 
 // chainInvariants: name -> evaluator on the final state of a replica (filled by the per-property files).
